@@ -1,7 +1,8 @@
 #!/usr/bin/env python3
 """Run a check against a HARMLESS change (one that keeps the property) and record whether it
 stays silent.  usage: harmless_check.py /tmp/harmout-cXX/H1
-Stores /verif/seeded_harmless/<Cxx>-<Hn>/{patch.diff, meta.json}."""
+Stores /verif/seeded_harmless/<Cxx>-<Hn>/{patch.diff, meta.json}; may be re-run in place on such a
+directory (the first recorded result is kept as "first_run")."""
 import json, os, re, shutil, subprocess, sys, tempfile
 VERIF = os.path.dirname(os.path.dirname(os.path.abspath(__file__)))
 
@@ -44,7 +45,10 @@ def main():
         rc_, base = sh("git -C /repo log -1 --format=%h"); log["repo_head"] = base.strip()
         dst = os.path.join(VERIF, "seeded_harmless", f"{pid}-{var}")
         os.makedirs(dst, exist_ok=True)
-        shutil.copy(os.path.join(src, "patch.diff"), dst)
+        if os.path.abspath(src) != os.path.abspath(dst):
+            shutil.copy(os.path.join(src, "patch.diff"), dst)
+        if "checked_by_lead" in meta and "first_run" not in meta:
+            meta["first_run"] = meta["checked_by_lead"]   # result before the checks were hardened
         meta["checked_by_lead"] = log
         json.dump(meta, open(os.path.join(dst, "meta.json"), "w"), indent=1)
         brief = {k: v for k, v in log.items() if k not in ("tail",)}
